@@ -38,6 +38,10 @@ type Profile struct {
 	WriteOtherFact int // percent chance that assignment targets avoid fact G (C13)
 	TemplatePct    int // percent chance that a directed template is added
 	PFieldMethod   int // percent chance that a method call is one whose result depends on a field (Level/Label)
+	// MutatorPool > 0: mutator call texts are drawn from a pool of that many literals, so the same call text
+	// occurs in several rules. Only for checks whose oracle is differential (C08), because a repeated
+	// action-side call text is executed once per Execute by the engine (memoized), which the model does not mirror.
+	MutatorPool int
 }
 
 // DefaultProfile is the general-purpose Sim E profile.
@@ -547,6 +551,9 @@ func (g *G) Program() *grl.Program {
 			// has a call text unique in the rule set, and the rule retracts itself (R2, R3)
 			f := g.R.PickStr("F", "G")
 			g.mutN++
+			if g.Prof.MutatorPool > 0 {
+				g.mutN = g.R.Intn(g.Prof.MutatorPool) + 1
+			}
 			switch g.R.Intn(3) {
 			case 0:
 				r.Then = append(r.Then, &grl.Action{K: "mut", E: &grl.Expr{K: "call", Path: grl.P(f), Fn: "SetI", Args: []*grl.Expr{lit(int64(100 + g.mutN))}}},
